@@ -208,6 +208,7 @@ Others == <<
   V("Parameter/typed", "Parameter", {"param"}, "both", 0, FALSE, [Type |-> Ch("type", 0), Var |-> SimpleVar]),
   V("Parameter/ref", "Parameter", {"param"}, "both", 0, TRUE, [AmpersandTkn |-> Tk("&"), Var |-> SimpleVar]),
   V("Parameter/variadic", "Parameter", {"param"}, "both", 0, TRUE, [VariadicTkn |-> Tk("..."), Var |-> SimpleVar]),
+  V("Parameter/refvariadic", "Parameter", {"param"}, "both", 0, TRUE, [AmpersandTkn |-> Tk("&"), VariadicTkn |-> Tk("..."), Var |-> SimpleVar]),
   V("Parameter/default", "Parameter", {"param"}, "both", 0, FALSE, [Var |-> SimpleVar, EqualTkn |-> Tk("="), DefaultValue |-> Ch("scalar", 0)]),
   V("Parameter/full", "Parameter", {"param"}, "both", 0, FALSE,
     [Type |-> Ch("type", 0), AmpersandTkn |-> Tk("&"), Var |-> SimpleVar, EqualTkn |-> Tk("="), DefaultValue |-> Ch("scalar", 0)]),
